@@ -14,6 +14,7 @@ RULE = ("passes whose line i carries quality bit (i mod 32) alone, then random /
         "inner record); passes in which one scan-line number is stored twice and one copy is flagged; passes at the top of each line-number field's range "
         "(32762.., 65520.., 14980..). A case = (format, line); non-trivial = "
         "quality word != 0; distinct by (family, quality word)")
+RULE += (" In the thorough tier, and in the quick tier whenever the source differs from the validated baseline, a LONG-PASS stream is added (passes of 1300 .. 12000 lines, just beyond multiples of 256 .. 8192, with the property-relevant event placed at and after such multiples; DESIGN 10.4 round 13).")
 
 BITS = {"klm": (31, 28, 27), "pod": (31, 27, 26)}
 CONT = {"klm": ((7, 6), (5, 4), (3, 2)), "pod": ((18,), (17,), (16,))}
